@@ -182,39 +182,47 @@ inductive Kind
   | mget | mset | del
 deriving Repr, DecidableEq
 
+/-- what the backend does with one send of a child request: the child's plan is a list of these -/
+inductive Step
+  | reply        -- a plain reply: final
+  | fail         -- an error reply, a malformed MOVED, CLUSTERDOWN, a lost connection: final
+  | moved        -- MOVED to another node: resent
+  | movedDead    -- MOVED to an address nobody listens on: the resend fails
+  | ask          -- ASK: ASKING (answered +OK) and a resend
+  | askRefused   -- ASK: ASKING (answered with an error) and a resend
+deriving Repr, DecidableEq
+
 structure Req where
   kind : Kind
-  plans : List (List Char)
+  plans : List (List Step)
 deriving Repr
 
-/-- replies for one child: events, next free id, whether the final reply is an error.
-`o` plain reply, `e` error, `x` malformed MOVED, `c` CLUSTERDOWN, `f` backend gone: final;
-`m` MOVED to another node, `n` MOVED to an address nobody listens on,
-`a`/`A` ASK (the ASKING request is answered +OK / an error): followed by a resend. -/
-def evalChild (quit : Bool) (sid : Nat) : (fresh : Nat) → List Char → List REv × Nat × Bool
-  | fresh, plan =>
-    if quit then ([.simDone sid true], fresh, true) else
-    match plan with
-    | [] => ([.simDone sid false], fresh, false)
-    | 'o' :: _ => ([.simDone sid false], fresh, false)
-    | 'm' :: rest =>
-      let (evs, fr, e) := evalChild quit sid fresh rest
-      (.moved :: .simSend sid :: evs, fr, e)
-    | 'n' :: _ => ([.moved, .simSend sid, .simDone sid true], fresh, true)
-    | 'a' :: rest =>
-      let (evs, fr, e) := evalChild quit sid (fresh + 1) rest
-      (.simSend fresh :: .simSend sid :: .simDone fresh false :: evs, fr, e)
-    | 'A' :: rest =>
-      let (evs, fr, e) := evalChild quit sid (fresh + 1) rest
-      (.simSend fresh :: .simSend sid :: .simDone fresh true :: evs, fr, e)
-    | _ :: _ => ([.simDone sid true], fresh, true)
+/-- replies for one child: events, next free id, whether the final reply is an error -/
+def evalChild (sid : Nat) : List Step → Nat → List REv × Nat × Bool
+  | [], fresh => ([.simDone sid false], fresh, false)
+  | .reply :: _, fresh => ([.simDone sid false], fresh, false)
+  | .fail :: _, fresh => ([.simDone sid true], fresh, true)
+  | .moved :: rest, fresh =>
+    let r := evalChild sid rest fresh
+    (.moved :: .simSend sid :: r.1, r.2.1, r.2.2)
+  | .movedDead :: _, fresh => ([.moved, .simSend sid, .simDone sid true], fresh, true)
+  | .ask :: rest, fresh =>
+    let r := evalChild sid rest (fresh + 1)
+    (.simSend fresh :: .simSend sid :: .simDone fresh false :: r.1, r.2.1, r.2.2)
+  | .askRefused :: rest, fresh =>
+    let r := evalChild sid rest (fresh + 1)
+    (.simSend fresh :: .simSend sid :: .simDone fresh true :: r.1, r.2.1, r.2.2)
 
-def evalChildren (quit : Bool) : (fresh : Nat) → List (List Char) → List REv × Nat × Nat
+/-- once the upstream has been told to quit every send is refused at once -/
+def evalChildQ (quit : Bool) (sid fresh : Nat) (plan : List Step) : List REv × Nat × Bool :=
+  if quit then ([.simDone sid true], fresh, true) else evalChild sid plan fresh
+
+def evalChildren (quit : Bool) : Nat → List (List Step) → List REv × Nat × Nat
   | fresh, [] => ([], fresh, 0)
   | fresh, p :: ps =>
-    let (e1, f1, err) := evalChild quit fresh (fresh + 1) p
-    let (e2, f2, n) := evalChildren quit f1 ps
-    (.simSend fresh :: e1 ++ e2, f2, n + (if err then 1 else 0))
+    let r1 := evalChildQ quit fresh (fresh + 1) p
+    let r2 := evalChildren quit r1.2.1 ps
+    (.simSend fresh :: r1.1 ++ r2.1, r2.2.1, r2.2.2 + (if r1.2.2 then 1 else 0))
 
 /-- events of one downstream request; `rid` also seeds the ids of its children -/
 def evalReq (quit : Bool) (fresh : Nat) (r : Req) : List REv × Nat :=
@@ -224,24 +232,22 @@ def evalReq (quit : Bool) (fresh : Nat) (r : Req) : List REv × Nat :=
   | .ping => ([.rawNew rid (some cPing), .rawDone rid false], fresh + 1)
   | .bare => ([.rawNew rid (some cGet), .rawDone rid true], fresh + 1)
   | .single c =>
-    let (evs, f, errs) := evalChildren quit (fresh + 1) [r.plans.headD []]
-    (.rawNew rid (some c) :: evs ++ [.rawDone rid (errs != 0)], f)
+    let ch := evalChildren quit (fresh + 1) [r.plans.headD []]
+    (.rawNew rid (some c) :: ch.1 ++ [.rawDone rid (ch.2.2 != 0)], ch.2.1)
   | .mget =>
-    let (evs, f, _) := evalChildren quit (fresh + 1) r.plans
-    (.rawNew rid (some cMGet) :: evs ++ [.rawDone rid false], f)
+    let ch := evalChildren quit (fresh + 1) r.plans
+    (.rawNew rid (some cMGet) :: ch.1 ++ [.rawDone rid false], ch.2.1)
   | .mset =>
-    let (evs, f, errs) := evalChildren quit (fresh + 1) r.plans
-    (.rawNew rid (some cMSet) :: evs ++ [.rawDone rid (errs != 0)], f)
+    let ch := evalChildren quit (fresh + 1) r.plans
+    (.rawNew rid (some cMSet) :: ch.1 ++ [.rawDone rid (ch.2.2 != 0)], ch.2.1)
   | .del =>
-    let (evs, f, errs) := evalChildren quit (fresh + 1) r.plans
-    (.rawNew rid (some cDel) :: evs ++ [.rawDone rid (errs != 0)], f)
+    let ch := evalChildren quit (fresh + 1) r.plans
+    (.rawNew rid (some cDel) :: ch.1 ++ [.rawDone rid (ch.2.2 != 0)], ch.2.1)
 
 /-- a script: requests, and `none` = the upstream is told to quit from here on -/
 def evalScript : (quit : Bool) → (fresh : Nat) → List (Option Req) → List REv
   | _, _, [] => []
   | _, fresh, none :: rest => evalScript true fresh rest
-  | quit, fresh, some r :: rest =>
-    let (evs, f) := evalReq quit fresh r
-    evs ++ evalScript quit f rest
+  | quit, fresh, some r :: rest => (evalReq quit fresh r).1 ++ evalScript quit (evalReq quit fresh r).2 rest
 
 end SamVerif.Stats
